@@ -122,3 +122,883 @@ Proof.
 Qed.
 
 End Flags.
+
+(* ------------------------------------------------------------------ sums over index sets *)
+
+Definition pw_at (vs : list validator) (i : nat) : Z :=
+  match nth_error vs i with Some v => v_power v | None => 0 end.
+
+(* power of the members with indices in S *)
+Fixpoint pw (vs : list validator) (S : list nat) : Z :=
+  match S with [] => 0 | i :: r => pw_at vs i + pw vs r end.
+
+Lemma pw_at_nonneg : forall vs i, Forall (fun v => 0 <= v_power v) vs -> 0 <= pw_at vs i.
+Proof.
+  intros vs i H. unfold pw_at. destruct (nth_error vs i) as [v|] eqn:E; [|lia].
+  apply nth_error_In in E. rewrite Forall_forall in H. apply H; assumption.
+Qed.
+
+Lemma pw_nonneg : forall vs S, Forall (fun v => 0 <= v_power v) vs -> 0 <= pw vs S.
+Proof. intros vs S H. induction S as [|i r IH]; cbn [pw]; [lia|]. pose proof (pw_at_nonneg vs i H). lia. Qed.
+
+Lemma pw_app : forall vs a b, pw vs (a ++ b) = pw vs a + pw vs b.
+Proof. intros vs a b. induction a as [|i a IH]; cbn [pw app]; lia. Qed.
+
+Lemma pw_incl_le : forall vs, Forall (fun v => 0 <= v_power v) vs ->
+  forall S, NoDup S -> forall l, (forall x, In x S -> ~ In x l -> pw_at vs x = 0) -> pw vs S <= pw vs l.
+Proof.
+  intros vs Hnn S HS. induction HS as [|a S' Ha HS' IH]; intros l Hout; cbn [pw].
+  - apply pw_nonneg; assumption.
+  - destruct (in_dec Nat.eq_dec a l) as [Hin|Hnin].
+    + apply in_split in Hin as [l1 [l2 ->]].
+      assert (H' : pw vs S' <= pw vs (l1 ++ l2)).
+      { apply IH. intros x Hx Hnx. apply Hout; [right; assumption|].
+        intro Hc. apply Hnx. apply in_app_or in Hc as [Hc|[Hc|Hc]].
+        - apply in_or_app; left; assumption.
+        - subst x. contradiction.
+        - apply in_or_app; right; assumption. }
+      rewrite pw_app in *. cbn [pw]. lia.
+    + rewrite (Hout a (or_introl eq_refl) Hnin).
+      assert (H' : pw vs S' <= pw vs l) by (apply IH; intros x Hx; apply Hout; right; assumption).
+      lia.
+Qed.
+
+Lemma pw_shift : forall v r l, pw (v :: r) (map S l) = pw r l.
+Proof. intros v r l. induction l as [|i l IH]; cbn [pw map]; [reflexivity|]. rewrite IH. reflexivity. Qed.
+
+Lemma pw_all : forall vs, pw vs (seq 0 (length vs)) = sum_power vs.
+Proof.
+  induction vs as [|v r IH]; [reflexivity|].
+  cbn [length seq]. rewrite <- seq_shift. cbn [pw sum_power]. rewrite pw_shift, IH. reflexivity.
+Qed.
+
+(* distinct members never carry more than the whole set *)
+Lemma pw_le_sum : forall vs S, Forall (fun v => 0 <= v_power v) vs -> NoDup S -> pw vs S <= sum_power vs.
+Proof.
+  intros vs S Hnn HS. rewrite <- pw_all. apply pw_incl_le; try assumption.
+  intros x _ Hx. unfold pw_at. destruct (nth_error vs x) eqn:E; [|reflexivity].
+  exfalso. apply Hx. apply in_seq. split; [lia|]. cbn. apply nth_error_Some. congruence.
+Qed.
+
+Lemma get_by_address_spec : forall vs a k vi v,
+  get_by_address vs a k = Some (vi, v) ->
+  (k <= vi)%nat /\ nth_error vs (vi - k) = Some v /\ v_addr v = a.
+Proof.
+  induction vs as [|x r IH]; intros a k vi v H; cbn [get_by_address] in H; [discriminate|].
+  destruct (v_addr x =? a) eqn:E.
+  - injection H as <- <-. rewrite Nat.sub_diag. split; [lia|]. split; [reflexivity|lia].
+  - apply IH in H as [H1 [H2 H3]]. split; [lia|]. split; [|assumption].
+    replace (vi - k)%nat with (S (vi - S k)) by lia. exact H2.
+Qed.
+
+(* ------------------------------------------------------------------ the three entry points *)
+
+Definition idw (z : Z) : Z := z.
+
+Section Main.
+Variable sig : Type.
+Variable sv : key -> signmsg -> sig -> bool.
+
+Notation nonneg := (Forall (fun v => 0 <= v_power v)).
+
+(* a non-absent slot has a known flag and carries a signature of the validator at its position
+   over the vote the slot stands for (for the block, or for nil) *)
+Definition slot_ok (chain : Z) (c : commit sig) (v : validator) (cs : commitsig sig) : Prop :=
+  cs_absent cs = true \/
+  exists m, vote_sign_bytes chain c cs = Some m /\ sv (v_key v) m (cs_sig cs) = true.
+
+Definition all_slots_ok (chain : Z) (c : commit sig) (vs : list validator) (sigs : list (commitsig sig)) : Prop :=
+  Forall (fun p => slot_ok chain c (fst p) (snd p)) (combine vs sigs).
+
+(* power behind the slots flagged for the block, by position; signatures not looked at *)
+Fixpoint block_tally (vs : list validator) (sigs : list (commitsig sig)) : Z :=
+  match vs, sigs with
+  | v :: vs', cs :: sigs' => (if cs_for_block cs then v_power v else 0) + block_tally vs' sigs'
+  | _, _ => 0
+  end.
+
+(* flagged for the block AND the signature verifies under the validator's key for exactly
+   (chain, precommit, h, r, bid, the slot's timestamp) *)
+Definition good_slot (chain h r : Z) (bid : blockid) (v : validator) (cs : commitsig sig) : bool :=
+  cs_for_block cs && sv (v_key v) (sign_msg chain h r bid (cs_ts cs)) (cs_sig cs).
+
+Fixpoint good_tally (chain h r : Z) (bid : blockid) (vs : list validator) (sigs : list (commitsig sig)) : Z :=
+  match vs, sigs with
+  | v :: vs', cs :: sigs' =>
+    (if good_slot chain h r bid v cs then v_power v else 0) + good_tally chain h r bid vs' sigs'
+  | _, _ => 0
+  end.
+
+Lemma good_tally_nonneg : forall chain h r bid vs sigs, nonneg vs -> 0 <= good_tally chain h r bid vs sigs.
+Proof.
+  intros chain h r bid vs. induction vs as [|v vs IH]; intros sigs H; [reflexivity|].
+  destruct sigs as [|cs sigs]; [reflexivity|]. cbn [good_tally]. inversion H; subst.
+  specialize (IH sigs ltac:(assumption)). destruct (good_slot chain h r bid v cs); lia.
+Qed.
+
+Lemma block_tally_nonneg : forall vs sigs, nonneg vs -> 0 <= block_tally vs sigs.
+Proof.
+  induction vs as [|v vs IH]; intros sigs H; [reflexivity|].
+  destruct sigs as [|cs sigs]; [reflexivity|]. cbn [block_tally]. inversion H; subst.
+  specialize (IH sigs ltac:(assumption)). destruct (cs_for_block cs); lia.
+Qed.
+
+Lemma good_le_block : forall chain h r bid vs sigs, nonneg vs ->
+  good_tally chain h r bid vs sigs <= block_tally vs sigs.
+Proof.
+  intros chain h r bid vs. induction vs as [|v vs IH]; intros sigs H; [reflexivity|].
+  destruct sigs as [|cs sigs]; [reflexivity|]. cbn [good_tally block_tally]. inversion H; subst.
+  specialize (IH sigs ltac:(assumption)). unfold good_slot.
+  destruct (cs_for_block cs); cbn [andb]; [|lia].
+  destruct (sv (v_key v) (sign_msg chain h r bid (cs_ts cs)) (cs_sig cs)); lia.
+Qed.
+
+Lemma block_tally_le_sum : forall vs sigs, nonneg vs -> block_tally vs sigs <= sum_power vs.
+Proof.
+  induction vs as [|v vs IH]; intros sigs H; [reflexivity|]. inversion H; subst.
+  destruct sigs as [|cs sigs]; cbn [block_tally sum_power].
+  - pose proof (sum_power_nonneg vs ltac:(assumption)). lia.
+  - specialize (IH sigs ltac:(assumption)). destruct (cs_for_block cs); lia.
+Qed.
+
+(* when every slot is ok, the flagged power is the verified power *)
+Lemma all_ok_block_good : forall chain c vs sigs,
+  all_slots_ok chain c vs sigs ->
+  block_tally vs sigs = good_tally chain (c_height c) (c_round c) (c_bid c) vs sigs.
+Proof.
+  intros chain c vs. induction vs as [|v vs IH]; intros sigs H; [reflexivity|].
+  destruct sigs as [|cs sigs]; [reflexivity|]. unfold all_slots_ok in H. cbn [combine] in H.
+  apply Forall_cons_iff in H as [H1 H2]. cbn [fst snd] in H1.
+  cbn [block_tally good_tally]. rewrite (IH sigs H2). unfold good_slot.
+  destruct (cs_for_block cs) eqn:Ef; cbn [andb]; [|reflexivity].
+  destruct H1 as [Ha|[m [Em Es]]].
+  - rewrite (absent_not_for_block cs Ha) in Ef. discriminate.
+  - rewrite (for_block_sign_bytes chain c cs Ef) in Em. injection Em as <-. rewrite Es. reflexivity.
+Qed.
+
+Section Loops.
+Variable chain : Z.
+Variable c : commit sig.
+Variable needed : Z.
+
+Let gt := good_tally chain (c_height c) (c_round c) (c_bid c).
+
+(* ---- VerifyCommit *)
+
+Lemma vc_loop_cons : forall w v vs cs sigs idx t,
+  vc_loop sig sv w chain c needed (v :: vs) (cs :: sigs) idx t =
+  if cs_absent cs then vc_loop sig sv w chain c needed vs sigs (idx + 1) t
+  else match vote_sign_bytes chain c cs with
+       | None => R_panic
+       | Some m =>
+         if negb (sv (v_key v) m (cs_sig cs)) then R_err_sig idx
+         else vc_loop sig sv w chain c needed vs sigs (idx + 1)
+                      (if cs_for_block cs then w (t + v_power v) else t)
+       end.
+Proof. reflexivity. Qed.
+
+Lemma vc_loop_ok_iff : forall sigs vs idx t, length vs = length sigs ->
+  (vc_loop sig sv idw chain c needed vs sigs idx t = R_ok <->
+   all_slots_ok chain c vs sigs /\ t + block_tally vs sigs > needed).
+Proof.
+  induction sigs as [|cs sigs IH]; intros vs idx t Hlen; destruct vs as [|v vs]; try discriminate Hlen.
+  - cbn [vc_loop block_tally]. unfold all_slots_ok. cbn [combine].
+    destruct (t <=? needed) eqn:E; split; intro H; try discriminate.
+    + destruct H; lia.
+    + split; [constructor | lia].
+    + reflexivity.
+  - rewrite vc_loop_cons. cbn [block_tally]. unfold all_slots_ok. cbn [combine].
+    rewrite Forall_cons_iff. cbn [fst snd]. injection Hlen as Hlen.
+    fold (all_slots_ok chain c vs sigs).
+    destruct (cs_absent cs) eqn:Ea.
+    + rewrite (absent_not_for_block cs Ea). rewrite (IH vs (idx + 1) t Hlen).
+      split; intros H.
+      * destruct H as [A B]. split; [split; [left; exact Ea | exact A] | lia].
+      * destruct H as [[_ A] B]. split; [exact A | lia].
+    + destruct (vote_sign_bytes chain c cs) as [m|] eqn:Em.
+      * destruct (sv (v_key v) m (cs_sig cs)) eqn:Es; cbn [negb].
+        -- rewrite (IH vs (idx + 1) _ Hlen). unfold idw. split; intros H.
+           ++ destruct H as [A B]. split; [split; [right; exists m; split; assumption | exact A]|].
+              destruct (cs_for_block cs); lia.
+           ++ destruct H as [[_ A] B]. split; [exact A|]. destruct (cs_for_block cs); lia.
+        -- split; [discriminate|]. intros [[[A|[m' [E1 E2]]] _] _]; congruence.
+      * split; [discriminate|]. intros [[[A|[m' [E1 E2]]] _] _]; congruence.
+Qed.
+
+(* ---- VerifyCommitLight *)
+
+Lemma vl_loop_cons : forall w v vs cs sigs idx t,
+  vl_loop sig sv w chain c needed (v :: vs) (cs :: sigs) idx t =
+  if negb (cs_for_block cs) then vl_loop sig sv w chain c needed vs sigs (idx + 1) t
+  else match vote_sign_bytes chain c cs with
+       | None => R_panic
+       | Some m =>
+         if negb (sv (v_key v) m (cs_sig cs)) then R_err_sig idx
+         else let t' := w (t + v_power v) in
+              if t' >? needed then R_ok
+              else vl_loop sig sv w chain c needed vs sigs (idx + 1) t'
+       end.
+Proof. reflexivity. Qed.
+
+(* accepted => the power behind *verified* for-the-block signatures exceeds the threshold *)
+Lemma vl_loop_sound : forall sigs vs idx t, nonneg vs ->
+  vl_loop sig sv idw chain c needed vs sigs idx t = R_ok -> t + gt vs sigs > needed.
+Proof.
+  induction sigs as [|cs sigs IH]; intros vs idx t Hnn H; [discriminate H|].
+  destruct vs as [|v vs]; [discriminate H|]. rewrite vl_loop_cons in H.
+  inversion Hnn as [|? ? Hv Hvs]; subst. unfold gt. cbn [good_tally]. fold gt. unfold good_slot.
+  destruct (cs_for_block cs) eqn:Ef; cbn [negb andb] in *.
+  - rewrite (for_block_sign_bytes chain c cs Ef) in H.
+    destruct (sv (v_key v) (sign_msg chain (c_height c) (c_round c) (c_bid c) (cs_ts cs)) (cs_sig cs)) eqn:Es;
+      cbn [negb] in H; [|discriminate H].
+    unfold idw in H at 1. cbv zeta in H.
+    destruct (t + v_power v >? needed) eqn:Et.
+    + pose proof (good_tally_nonneg chain (c_height c) (c_round c) (c_bid c) vs sigs Hvs). fold gt in H0. lia.
+    + apply IH in H; [|assumption]. unfold idw in H. lia.
+  - apply IH in H; [|assumption]. lia.
+Qed.
+
+(* every slot ok and enough flagged power => the early-exit loop accepts *)
+Lemma vl_loop_complete : forall sigs vs idx t, length vs = length sigs ->
+  all_slots_ok chain c vs sigs -> t <= needed -> t + block_tally vs sigs > needed ->
+  vl_loop sig sv idw chain c needed vs sigs idx t = R_ok.
+Proof.
+  induction sigs as [|cs sigs IH]; intros vs idx t Hlen Hok Ht Hb; destruct vs as [|v vs]; try discriminate Hlen.
+  - cbn [block_tally] in Hb. lia.
+  - injection Hlen as Hlen. unfold all_slots_ok in Hok. cbn [combine] in Hok.
+    apply Forall_cons_iff in Hok as [H1 H2]. cbn [fst snd] in H1. cbn [block_tally] in Hb.
+    rewrite vl_loop_cons. destruct (cs_for_block cs) eqn:Ef; cbn [negb].
+    + destruct H1 as [Ha|[m [Em Es]]].
+      * rewrite (absent_not_for_block cs Ha) in Ef. discriminate.
+      * rewrite Em, Es. cbn [negb]. unfold idw at 1. cbv zeta.
+        destruct (t + v_power v >? needed) eqn:Et; [reflexivity|].
+        apply IH; try assumption; unfold idw; lia.
+    + apply IH; try assumption; lia.
+Qed.
+
+(* ---- VerifyCommitLightTrusting *)
+
+(* member i of the set put a valid for-the-block signature into the commit *)
+Definition member_signed (vs : list validator) (i : nat) : Prop :=
+  exists v cs, nth_error vs i = Some v /\ In cs (c_sigs c) /\ cs_for_block cs = true /\
+               cs_addr cs = v_addr v /\
+               sv (v_key v) (sign_msg chain (c_height c) (c_round c) (c_bid c) (cs_ts cs)) (cs_sig cs) = true.
+
+Lemma vt_loop_cons : forall w vs cs sigs idx t seen,
+  vt_loop sig sv w chain c needed vs (cs :: sigs) idx t seen =
+  if negb (cs_for_block cs) then vt_loop sig sv w chain c needed vs sigs (idx + 1) t seen
+  else match get_by_address vs (cs_addr cs) O with
+       | None => vt_loop sig sv w chain c needed vs sigs (idx + 1) t seen
+       | Some (vi, v) =>
+         if existsb (Nat.eqb vi) seen then R_err_double (Z.of_nat vi) idx
+         else match vote_sign_bytes chain c cs with
+              | None => R_panic
+              | Some m =>
+                if negb (sv (v_key v) m (cs_sig cs)) then R_err_sig idx
+                else let t' := w (t + v_power v) in
+                     if t' >? needed then R_ok
+                     else vt_loop sig sv w chain c needed vs sigs (idx + 1) t' (vi :: seen)
+              end
+       end.
+Proof. reflexivity. Qed.
+
+Lemma existsb_nat_false : forall x l, existsb (Nat.eqb x) l = false -> ~ In x l.
+Proof.
+  intros x l H Hin. assert (existsb (Nat.eqb x) l = true); [|congruence].
+  apply existsb_exists. exists x. split; [assumption | apply Nat.eqb_refl].
+Qed.
+
+Lemma vt_loop_sound : forall vs sigs idx t seen,
+  (forall cs, In cs sigs -> In cs (c_sigs c)) ->
+  NoDup seen -> Forall (member_signed vs) seen -> t = pw vs seen ->
+  vt_loop sig sv idw chain c needed vs sigs idx t seen = R_ok ->
+  exists S, NoDup S /\ Forall (member_signed vs) S /\ pw vs S > needed.
+Proof.
+  intros vs. induction sigs as [|cs sigs IH]; intros idx t seen Hin Hnd Hms Ht H; [discriminate H|].
+  rewrite vt_loop_cons in H.
+  assert (Hin' : forall x, In x sigs -> In x (c_sigs c)) by (intros x Hx; apply Hin; right; assumption).
+  destruct (cs_for_block cs) eqn:Ef; cbn [negb] in H; [|eapply IH; eassumption].
+  destruct (get_by_address vs (cs_addr cs) 0) as [[vi v]|] eqn:Eg; [|eapply IH; eassumption].
+  destruct (existsb (Nat.eqb vi) seen) eqn:Ee; [discriminate H|].
+  rewrite (for_block_sign_bytes chain c cs Ef) in H.
+  destruct (sv (v_key v) (sign_msg chain (c_height c) (c_round c) (c_bid c) (cs_ts cs)) (cs_sig cs)) eqn:Es;
+    cbn [negb] in H; [|discriminate H].
+  apply get_by_address_spec in Eg as [_ [Hnth Haddr]]. rewrite Nat.sub_0_r in Hnth.
+  assert (Hnew : member_signed vs vi).
+  { exists v, cs. repeat split; try assumption; [apply Hin; left; reflexivity | symmetry; assumption]. }
+  assert (Hnd' : NoDup (vi :: seen)) by (constructor; [apply existsb_nat_false; assumption | assumption]).
+  assert (Hpw : pw vs (vi :: seen) = t + v_power v).
+  { cbn [pw]. unfold pw_at. rewrite Hnth. lia. }
+  unfold idw in H at 1. cbv zeta in H.
+  destruct (t + v_power v >? needed) eqn:Et.
+  - exists (vi :: seen). split; [assumption|]. split; [constructor; assumption | lia].
+  - eapply IH; try eassumption; [constructor; assumption | unfold idw; lia].
+Qed.
+
+End Loops.
+
+(* ------------------------------------------------------------------ int64 wrap never fires *)
+
+Section NoWrap.
+Variable chain : Z.
+Variable c : commit sig.
+Variable needed : Z.
+
+Lemma vc_loop_nowrap : forall sigs vs idx t,
+  nonneg vs -> 0 <= t -> t + sum_power vs <= max_int64 ->
+  vc_loop sig sv wrap64 chain c needed vs sigs idx t = vc_loop sig sv idw chain c needed vs sigs idx t.
+Proof.
+  induction sigs as [|cs sigs IH]; intros vs idx t Hnn Ht Hle; [reflexivity|].
+  destruct vs as [|v vs]; [reflexivity|]. rewrite !vc_loop_cons.
+  inversion Hnn as [|? ? Hv Hvs]; subst. cbn [sum_power] in Hle.
+  pose proof (sum_power_nonneg vs Hvs) as Hs.
+  destruct (cs_absent cs); [apply IH; try assumption; lia|].
+  destruct (vote_sign_bytes chain c cs) as [m|]; [|reflexivity].
+  destruct (negb (sv (v_key v) m (cs_sig cs))); [reflexivity|].
+  destruct (cs_for_block cs); [|apply IH; try assumption; lia].
+  rewrite wrap64_id by (unfold min_int64; lia). unfold idw. apply IH; try assumption; lia.
+Qed.
+
+Lemma vl_loop_nowrap : forall sigs vs idx t,
+  nonneg vs -> 0 <= t -> t + sum_power vs <= max_int64 ->
+  vl_loop sig sv wrap64 chain c needed vs sigs idx t = vl_loop sig sv idw chain c needed vs sigs idx t.
+Proof.
+  induction sigs as [|cs sigs IH]; intros vs idx t Hnn Ht Hle; [reflexivity|].
+  destruct vs as [|v vs]; [reflexivity|]. rewrite !vl_loop_cons.
+  inversion Hnn as [|? ? Hv Hvs]; subst. cbn [sum_power] in Hle.
+  pose proof (sum_power_nonneg vs Hvs) as Hs.
+  destruct (negb (cs_for_block cs)); [apply IH; try assumption; lia|].
+  destruct (vote_sign_bytes chain c cs) as [m|]; [|reflexivity].
+  destruct (negb (sv (v_key v) m (cs_sig cs))); [reflexivity|].
+  rewrite wrap64_id by (unfold min_int64; lia). unfold idw. cbv zeta.
+  destruct (t + v_power v >? needed); [reflexivity|]. apply IH; try assumption; lia.
+Qed.
+
+Lemma vt_loop_nowrap : forall vs sigs idx t seen,
+  nonneg vs -> sum_power vs <= max_int64 -> NoDup seen -> t = pw vs seen ->
+  vt_loop sig sv wrap64 chain c needed vs sigs idx t seen =
+  vt_loop sig sv idw chain c needed vs sigs idx t seen.
+Proof.
+  intros vs. induction sigs as [|cs sigs IH]; intros idx t seen Hnn Hle Hnd Ht; [reflexivity|].
+  rewrite !vt_loop_cons.
+  destruct (negb (cs_for_block cs)); [apply IH; assumption|].
+  destruct (get_by_address vs (cs_addr cs) 0) as [[vi v]|] eqn:Eg; [|apply IH; assumption].
+  destruct (existsb (Nat.eqb vi) seen) eqn:Ee; [reflexivity|].
+  destruct (vote_sign_bytes chain c cs) as [m|]; [|reflexivity].
+  destruct (negb (sv (v_key v) m (cs_sig cs))); [reflexivity|].
+  apply get_by_address_spec in Eg as [_ [Hnth _]]. rewrite Nat.sub_0_r in Hnth.
+  assert (Hnd' : NoDup (vi :: seen)) by (constructor; [apply existsb_nat_false; assumption | assumption]).
+  assert (Hpw : pw vs (vi :: seen) = t + v_power v).
+  { cbn [pw]. unfold pw_at. rewrite Hnth. lia. }
+  pose proof (pw_le_sum vs (vi :: seen) Hnn Hnd') as Hub.
+  pose proof (pw_nonneg vs (vi :: seen) Hnn) as Hlb.
+  rewrite wrap64_id by (unfold min_int64; lia). unfold idw. cbv zeta.
+  destruct (t + v_power v >? needed); [reflexivity|]. apply IH; try assumption. lia.
+Qed.
+
+End NoWrap.
+
+Lemma verify_commit_nowrap : forall vs chain bid h c, wf_valset vs ->
+  verify_commit sv vs chain bid h c = verify_commit_w sig sv idw vs chain bid h c.
+Proof.
+  intros vs chain bid h c Hwf. unfold verify_commit, verify_commit_w.
+  destruct (negb (Nat.eqb (length vs) (length (c_sigs c)))); [reflexivity|].
+  destruct (negb (h =? c_height c)); [reflexivity|].
+  destruct (negb (bid =? c_bid c)); [reflexivity|].
+  rewrite (total_voting_power_wf vs Hwf). destruct Hwf as [Hnn Hle].
+  pose proof (sum_power_nonneg vs Hnn) as H0. pose proof max_total_small as [M0 M8].
+  rewrite wrap64_id by (unfold min_int64; lia). unfold idw at 1.
+  apply vc_loop_nowrap; try assumption; lia.
+Qed.
+
+Lemma verify_commit_light_nowrap : forall vs chain bid h c, wf_valset vs ->
+  verify_commit_light sv vs chain bid h c = verify_commit_light_w sig sv idw vs chain bid h c.
+Proof.
+  intros vs chain bid h c Hwf. unfold verify_commit_light, verify_commit_light_w.
+  destruct (negb (Nat.eqb (length vs) (length (c_sigs c)))); [reflexivity|].
+  destruct (negb (h =? c_height c)); [reflexivity|].
+  destruct (negb (bid =? c_bid c)); [reflexivity|].
+  rewrite (total_voting_power_wf vs Hwf). destruct Hwf as [Hnn Hle].
+  pose proof (sum_power_nonneg vs Hnn) as H0. pose proof max_total_small as [M0 M8].
+  rewrite wrap64_id by (unfold min_int64; lia). unfold idw at 1.
+  apply vl_loop_nowrap; try assumption; lia.
+Qed.
+
+(* safeMul on non-negative int64 values: either it reports overflow or the product is exact
+   and fits *)
+Lemma safe_mul_nonneg : forall a b, 0 <= a <= max_int64 -> 0 <= b <= max_int64 ->
+  safe_mul wrap64 a b = safe_mul idw a b /\
+  (snd (safe_mul idw a b) = false -> fst (safe_mul idw a b) = a * b /\ a * b <= max_int64).
+Proof.
+  intros a b Ha Hb. unfold safe_mul.
+  destruct ((a =? 0) || (b =? 0)) eqn:E0.
+  - split; [reflexivity|]. intros _. cbn [fst]. split; lia.
+  - assert (a <> 0 /\ b <> 0) as [Ha0 Hb0] by lia.
+    assert (Eb : (b <? 0) = false) by lia. assert (Ea : (a <? 0) = false) by lia.
+    rewrite Ea, Eb.
+    destruct (a >? Z.quot max_int64 b) eqn:Eq.
+    + split; [reflexivity|]. cbn [snd]. discriminate.
+    + assert (Hab : a * b <= max_int64).
+      { rewrite Z.quot_div_nonneg in Eq by lia.
+        pose proof (Z.div_mod max_int64 b ltac:(lia)) as E.
+        pose proof (Z.mod_pos_bound max_int64 b ltac:(lia)) as B. nia. }
+      split.
+      * rewrite wrap64_id by (unfold min_int64; nia). reflexivity.
+      * intros _. cbn [fst]. unfold idw. split; [reflexivity | assumption].
+Qed.
+
+Lemma verify_commit_light_trusting_nowrap : forall vs chain c num den, wf_valset vs ->
+  0 <= num <= max_int64 -> 0 <= den <= max_int64 ->
+  verify_commit_light_trusting sv vs chain c num den =
+  verify_commit_light_trusting_w sig sv idw vs chain c num den.
+Proof.
+  intros vs chain c num den Hwf Hn Hd. unfold verify_commit_light_trusting, verify_commit_light_trusting_w.
+  destruct (den =? 0) eqn:Ed; [reflexivity|].
+  rewrite (total_voting_power_wf vs Hwf). destruct Hwf as [Hnn Hle].
+  pose proof (sum_power_nonneg vs Hnn) as H0. pose proof max_total_small as [M0 M8].
+  rewrite (wrap64_id num) by (unfold min_int64; lia).
+  rewrite (wrap64_id den) by (unfold min_int64; lia). unfold idw at 2 3.
+  destruct (safe_mul_nonneg (sum_power vs) num ltac:(lia) Hn) as [Esm Hex].
+  rewrite Esm. destruct (safe_mul idw (sum_power vs) num) as [prod ovf]. cbn [fst snd] in Hex.
+  destruct ovf; [reflexivity|]. destruct (Hex eq_refl) as [-> Hfit].
+  assert (Hq : 0 <= Z.quot (sum_power vs * num) den <= sum_power vs * num)
+    by (apply quot_nonneg; [nia | lia]).
+  rewrite wrap64_id by (unfold min_int64; lia). unfold idw at 1.
+  apply vt_loop_nowrap; try assumption; [lia | constructor | reflexivity].
+Qed.
+
+(* ------------------------------------------------------------------ the statements *)
+
+Lemma verify_commit_iff : forall vs chain bid h c, wf_valset vs ->
+  (verify_commit sv vs chain bid h c = R_ok <->
+   length vs = length (c_sigs c) /\ h = c_height c /\ bid = c_bid c /\
+   all_slots_ok chain c vs (c_sigs c) /\
+   3 * block_tally vs (c_sigs c) > 2 * sum_power vs).
+Proof.
+  intros vs chain bid h c Hwf. rewrite (verify_commit_nowrap vs chain bid h c Hwf).
+  unfold verify_commit_w. rewrite (total_voting_power_wf vs Hwf). destruct Hwf as [Hnn Hle].
+  pose proof (sum_power_nonneg vs Hnn) as H0.
+  destruct (Nat.eqb_spec (length vs) (length (c_sigs c))) as [El|El]; cbn [negb];
+    [|split; [discriminate | intros [? _]; contradiction]].
+  destruct (Z.eqb_spec h (c_height c)) as [Eh|Eh]; cbn [negb];
+    [|split; [discriminate | intros [_ [? _]]; contradiction]].
+  destruct (Z.eqb_spec bid (c_bid c)) as [Eb|Eb]; cbn [negb];
+    [|split; [discriminate | intros [_ [_ [? _]]]; contradiction]].
+  unfold idw at 1. rewrite (vc_loop_ok_iff chain c _ (c_sigs c) vs 0 0 El).
+  rewrite Z.add_0_l. rewrite (gt_quot_iff (block_tally vs (c_sigs c)) (sum_power vs * 2) 3) by lia.
+  split.
+  - intros [A B]. repeat split; try assumption. lia.
+  - intros [_ [_ [_ [A B]]]]. split; [assumption | lia].
+Qed.
+
+(* accepted by the full variant => +2/3 by *verified* for-the-block signatures *)
+Lemma verify_commit_sound : forall vs chain bid h c, wf_valset vs ->
+  verify_commit sv vs chain bid h c = R_ok ->
+  length vs = length (c_sigs c) /\ h = c_height c /\ bid = c_bid c /\
+  3 * good_tally chain h (c_round c) bid vs (c_sigs c) > 2 * sum_power vs.
+Proof.
+  intros vs chain bid h c Hwf H. apply (verify_commit_iff vs chain bid h c Hwf) in H
+    as [El [Eh [Eb [A B]]]].
+  repeat split; try assumption. subst h bid. rewrite <- (all_ok_block_good chain c vs (c_sigs c) A).
+  exact B.
+Qed.
+
+Lemma verify_commit_light_sound : forall vs chain bid h c, wf_valset vs ->
+  verify_commit_light sv vs chain bid h c = R_ok ->
+  length vs = length (c_sigs c) /\ h = c_height c /\ bid = c_bid c /\
+  3 * good_tally chain h (c_round c) bid vs (c_sigs c) > 2 * sum_power vs.
+Proof.
+  intros vs chain bid h c Hwf. rewrite (verify_commit_light_nowrap vs chain bid h c Hwf).
+  unfold verify_commit_light_w. rewrite (total_voting_power_wf vs Hwf). destruct Hwf as [Hnn Hle].
+  pose proof (sum_power_nonneg vs Hnn) as H0.
+  destruct (Nat.eqb_spec (length vs) (length (c_sigs c))) as [El|El]; cbn [negb]; [|discriminate].
+  destruct (Z.eqb_spec h (c_height c)) as [Eh|Eh]; cbn [negb]; [|discriminate].
+  destruct (Z.eqb_spec bid (c_bid c)) as [Eb|Eb]; cbn [negb]; [|discriminate].
+  unfold idw at 1. intro H. apply vl_loop_sound in H; [|assumption].
+  rewrite Z.add_0_l in H.
+  rewrite (gt_quot_iff _ (sum_power vs * 2) 3) in H by lia.
+  repeat split; try assumption. subst h bid. lia.
+Qed.
+
+(* the full variant accepting implies the early-exit variant accepting *)
+Lemma full_implies_light : forall vs chain bid h c, wf_valset vs ->
+  verify_commit sv vs chain bid h c = R_ok -> verify_commit_light sv vs chain bid h c = R_ok.
+Proof.
+  intros vs chain bid h c Hwf H.
+  apply (verify_commit_iff vs chain bid h c Hwf) in H as [El [Eh [Eb [A B]]]].
+  rewrite (verify_commit_light_nowrap vs chain bid h c Hwf).
+  unfold verify_commit_light_w. rewrite (total_voting_power_wf vs Hwf). destruct Hwf as [Hnn Hle].
+  pose proof (sum_power_nonneg vs Hnn) as H0.
+  rewrite El, Nat.eqb_refl, Eh, Z.eqb_refl, Eb, Z.eqb_refl. cbn [negb].
+  change (idw (sum_power vs * 2)) with (sum_power vs * 2).
+  pose proof (quot_nonneg (sum_power vs * 2) 3 ltac:(lia) ltac:(lia)) as Hq.
+  apply vl_loop_complete; try assumption; [lia|].
+  rewrite Z.add_0_l. apply (gt_quot_iff _ (sum_power vs * 2) 3); lia.
+Qed.
+
+(* ... and on commits all of whose signatures are valid the two agree *)
+Lemma full_light_agree : forall vs chain bid h c, wf_valset vs ->
+  all_slots_ok chain c vs (c_sigs c) ->
+  (verify_commit sv vs chain bid h c = R_ok <-> verify_commit_light sv vs chain bid h c = R_ok).
+Proof.
+  intros vs chain bid h c Hwf Hok. split; [apply full_implies_light; assumption|].
+  intro H. apply (verify_commit_light_sound vs chain bid h c Hwf) in H as [El [Eh [Eb B]]].
+  apply (verify_commit_iff vs chain bid h c Hwf). repeat split; try assumption.
+  subst h bid. rewrite (all_ok_block_good chain c vs (c_sigs c) Hok). exact B.
+Qed.
+
+(* accepted by the trusting variant => distinct members of the set, each with a verified
+   for-the-block signature in the commit, carry more than num/den of the total *)
+Lemma verify_commit_light_trusting_sound : forall vs chain c num den, wf_valset vs ->
+  0 <= num <= max_int64 -> 0 <= den <= max_int64 ->
+  verify_commit_light_trusting sv vs chain c num den = R_ok ->
+  exists S, NoDup S /\ Forall (member_signed chain c vs) S /\ den * pw vs S > num * sum_power vs.
+Proof.
+  intros vs chain c num den Hwf Hn Hd.
+  rewrite (verify_commit_light_trusting_nowrap vs chain c num den Hwf Hn Hd).
+  unfold verify_commit_light_trusting_w.
+  destruct (Z.eqb_spec den 0) as [Ed|Ed]; [discriminate|].
+  rewrite (total_voting_power_wf vs Hwf). destruct Hwf as [Hnn Hle].
+  pose proof (sum_power_nonneg vs Hnn) as H0. pose proof max_total_small as [M0 M8].
+  unfold idw at 2 3.
+  destruct (safe_mul_nonneg (sum_power vs) num ltac:(lia) Hn) as [_ Hex].
+  destruct (safe_mul idw (sum_power vs) num) as [prod ovf]. cbn [fst snd] in Hex.
+  destruct ovf; [discriminate|]. destruct (Hex eq_refl) as [-> Hfit]. unfold idw at 1.
+  intro H. apply vt_loop_sound in H; [| auto | constructor | constructor | reflexivity].
+  destruct H as [S [HS [HM HP]]]. exists S. split; [assumption|]. split; [assumption|].
+  apply (gt_quot_iff _ (sum_power vs * num) den) in HP; [lia | nia | lia].
+Qed.
+
+
+(* ------------------------------------------------------------------ exact rule of the early-exit variant *)
+
+(* every for-the-block slot of the pairing carries a verified signature *)
+Definition flagged_valid (chain : Z) (c : commit sig) (vs : list validator) (sigs : list (commitsig sig)) : Prop :=
+  Forall (fun p => cs_for_block (snd p) = true ->
+                   sv (v_key (fst p)) (sign_msg chain (c_height c) (c_round c) (c_bid c) (cs_ts (snd p)))
+                      (cs_sig (snd p)) = true) (combine vs sigs).
+
+Lemma vl_loop_iff : forall chain c needed sigs vs idx t, nonneg vs -> t <= needed ->
+  (vl_loop sig sv idw chain c needed vs sigs idx t = R_ok <->
+   exists n, flagged_valid chain c (firstn n vs) (firstn n sigs) /\
+             t + block_tally (firstn n vs) (firstn n sigs) > needed).
+Proof.
+  intros chain c needed. induction sigs as [|cs sigs IH]; intros vs idx t Hnn Ht.
+  - split; [discriminate|]. intros [n [_ B]]. rewrite firstn_nil in B.
+    destruct (firstn n vs); cbn [block_tally] in B; lia.
+  - destruct vs as [|v vs].
+    + split; [discriminate|]. intros [n [_ B]]. rewrite firstn_nil in B. cbn [block_tally] in B. lia.
+    + inversion Hnn as [|? ? Hv Hvs]; subst. rewrite vl_loop_cons.
+      destruct (cs_for_block cs) eqn:Ef; cbn [negb].
+      * rewrite (for_block_sign_bytes chain c cs Ef).
+        destruct (sv (v_key v) (sign_msg chain (c_height c) (c_round c) (c_bid c) (cs_ts cs)) (cs_sig cs)) eqn:Es;
+          cbn [negb].
+        -- unfold idw at 1. cbv zeta. destruct (t + v_power v >? needed) eqn:Et.
+           ++ split; [intros _|reflexivity]. exists 1%nat. cbn [firstn]. split.
+              ** unfold flagged_valid. cbn [combine]. constructor; [|constructor]. intros _. exact Es.
+              ** cbn [block_tally]. rewrite Ef. destruct (firstn 0 vs); lia.
+           ++ rewrite (IH vs (idx + 1) (idw (t + v_power v)) Hvs) by (unfold idw; lia). unfold idw.
+              split.
+              ** intros [n [A B]]. exists (S n). cbn [firstn]. split.
+                 --- unfold flagged_valid. cbn [combine]. constructor; [intros _; exact Es | exact A].
+                 --- cbn [block_tally]. rewrite Ef. lia.
+              ** intros [n [A B]]. destruct n as [|n]; [cbn [firstn block_tally] in B; lia|].
+                 exists n. cbn [firstn] in A, B. unfold flagged_valid in A. cbn [combine] in A.
+                 apply Forall_cons_iff in A as [_ A]. cbn [block_tally] in B. rewrite Ef in B.
+                 split; [exact A | lia].
+        -- split; [discriminate|]. intros [n [A B]].
+           destruct n as [|n]; [cbn [firstn block_tally] in B; lia|].
+           cbn [firstn] in A. unfold flagged_valid in A. cbn [combine] in A.
+           apply Forall_cons_iff in A as [A _]. cbn [fst snd] in A. rewrite (A Ef) in Es. discriminate.
+      * rewrite (IH vs (idx + 1) t Hvs Ht). split.
+        -- intros [n [A B]]. exists (S n). cbn [firstn]. split.
+           ++ unfold flagged_valid. cbn [combine]. constructor; [cbn [fst snd]; congruence | exact A].
+           ++ cbn [block_tally]. rewrite Ef. lia.
+        -- intros [n [A B]]. destruct n as [|n]; [cbn [firstn block_tally] in B; lia|].
+           exists n. cbn [firstn] in A, B. unfold flagged_valid in A. cbn [combine] in A.
+           apply Forall_cons_iff in A as [_ A]. cbn [block_tally] in B. rewrite Ef in B.
+           split; [exact A | lia].
+Qed.
+
+Lemma verify_commit_light_iff : forall vs chain bid h c, wf_valset vs ->
+  (verify_commit_light sv vs chain bid h c = R_ok <->
+   length vs = length (c_sigs c) /\ h = c_height c /\ bid = c_bid c /\
+   exists n, flagged_valid chain c (firstn n vs) (firstn n (c_sigs c)) /\
+             3 * block_tally (firstn n vs) (firstn n (c_sigs c)) > 2 * sum_power vs).
+Proof.
+  intros vs chain bid h c Hwf. rewrite (verify_commit_light_nowrap vs chain bid h c Hwf).
+  unfold verify_commit_light_w. rewrite (total_voting_power_wf vs Hwf). destruct Hwf as [Hnn Hle].
+  pose proof (sum_power_nonneg vs Hnn) as H0.
+  destruct (Nat.eqb_spec (length vs) (length (c_sigs c))) as [El|El]; cbn [negb];
+    [|split; [discriminate | intros [? _]; contradiction]].
+  destruct (Z.eqb_spec h (c_height c)) as [Eh|Eh]; cbn [negb];
+    [|split; [discriminate | intros [_ [? _]]; contradiction]].
+  destruct (Z.eqb_spec bid (c_bid c)) as [Eb|Eb]; cbn [negb];
+    [|split; [discriminate | intros [_ [_ [? _]]]; contradiction]].
+  change (idw (sum_power vs * 2)) with (sum_power vs * 2).
+  pose proof (quot_nonneg (sum_power vs * 2) 3 ltac:(lia) ltac:(lia)) as Hq.
+  rewrite (vl_loop_iff chain c _ (c_sigs c) vs 0 0 Hnn) by lia.
+  split.
+  - intros [n [A B]]. repeat split; try assumption. exists n. split; [assumption|].
+    rewrite Z.add_0_l in B. apply (gt_quot_iff _ (sum_power vs * 2) 3) in B; lia.
+  - intros [_ [_ [_ [n [A B]]]]]. exists n. split; [assumption|].
+    rewrite Z.add_0_l. apply (gt_quot_iff _ (sum_power vs * 2) 3); lia.
+Qed.
+
+(* ------------------------------------------------------------------ what is never looked at *)
+
+(* the same commit with other signature slots *)
+Definition with_sigs (c : commit sig) (s : list (commitsig sig)) : commit sig :=
+  {| c_height := c_height c; c_round := c_round c; c_bid := c_bid c; c_sigs := s |}.
+
+Lemma vote_sign_bytes_with_sigs : forall chain c s cs,
+  vote_sign_bytes chain (with_sigs c s) cs = vote_sign_bytes chain c cs.
+Proof. reflexivity. Qed.
+
+(* slots not flagged for the block (absent, nil) may hold anything: the early-exit variant
+   neither verifies nor counts them *)
+Definition same_or_unflagged (a b : commitsig sig) : Prop :=
+  a = b \/ (cs_for_block a = false /\ cs_for_block b = false).
+
+Lemma vl_loop_unflagged : forall w chain c needed s s', Forall2 same_or_unflagged s s' ->
+  forall vs idx t,
+  vl_loop sig sv w chain (with_sigs c s) needed vs s idx t =
+  vl_loop sig sv w chain (with_sigs c s') needed vs s' idx t.
+Proof.
+  intros w chain c needed s s' H.
+  assert (G : forall c1 c2, c_height c1 = c_height c2 -> c_round c1 = c_round c2 -> c_bid c1 = c_bid c2 ->
+          forall vs idx t, vl_loop sig sv w chain c1 needed vs s idx t = vl_loop sig sv w chain c2 needed vs s' idx t).
+  { intros c1 c2 E1 E2 E3. induction H as [|a b s s' Hab Hs IH]; intros vs idx t; [reflexivity|].
+    destruct vs as [|v vs]; [reflexivity|]. rewrite !vl_loop_cons.
+    assert (Ev : forall x, vote_sign_bytes chain c1 x = vote_sign_bytes chain c2 x)
+      by (intro x; unfold vote_sign_bytes, sign_msg; rewrite E1, E2, E3; reflexivity).
+    destruct Hab as [<-|[Ha Hb]].
+    - rewrite Ev. destruct (negb (cs_for_block a)); [apply IH|].
+      destruct (vote_sign_bytes chain c2 a); [|reflexivity].
+      destruct (negb (sv (v_key v) s0 (cs_sig a))); [reflexivity|]. cbv zeta.
+      destruct (w (t + v_power v) >? needed); [reflexivity | apply IH].
+    - rewrite Ha, Hb. cbn [negb]. apply IH. }
+  apply G; reflexivity.
+Qed.
+
+(* the trusting variant additionally skips slots whose address is not a member's *)
+Definition skipped_by_trusting (vs : list validator) (a : commitsig sig) : Prop :=
+  cs_for_block a = false \/ get_by_address vs (cs_addr a) 0 = None.
+Definition same_or_skipped (vs : list validator) (a b : commitsig sig) : Prop :=
+  a = b \/ (skipped_by_trusting vs a /\ skipped_by_trusting vs b).
+
+Lemma vt_loop_skipped : forall w chain c needed vs s s', Forall2 (same_or_skipped vs) s s' ->
+  forall idx t seen,
+  vt_loop sig sv w chain (with_sigs c s) needed vs s idx t seen =
+  vt_loop sig sv w chain (with_sigs c s') needed vs s' idx t seen.
+Proof.
+  intros w chain c needed vs s s' H.
+  assert (G : forall c1 c2, c_height c1 = c_height c2 -> c_round c1 = c_round c2 -> c_bid c1 = c_bid c2 ->
+          forall idx t seen, vt_loop sig sv w chain c1 needed vs s idx t seen =
+                             vt_loop sig sv w chain c2 needed vs s' idx t seen).
+  { intros c1 c2 E1 E2 E3. induction H as [|a b s s' Hab Hs IH]; intros idx t seen; [reflexivity|].
+    rewrite !vt_loop_cons.
+    assert (Ev : forall x, vote_sign_bytes chain c1 x = vote_sign_bytes chain c2 x)
+      by (intro x; unfold vote_sign_bytes, sign_msg; rewrite E1, E2, E3; reflexivity).
+    destruct Hab as [<-|[Ha Hb]].
+    - rewrite Ev. destruct (negb (cs_for_block a)); [apply IH|].
+      destruct (get_by_address vs (cs_addr a) 0) as [[vi v]|]; [|apply IH].
+      destruct (existsb (Nat.eqb vi) seen); [reflexivity|].
+      destruct (vote_sign_bytes chain c2 a); [|reflexivity].
+      destruct (negb (sv (v_key v) s0 (cs_sig a))); [reflexivity|]. cbv zeta.
+      destruct (w (t + v_power v) >? needed); [reflexivity | apply IH].
+    - destruct Ha as [Ha|Ha], Hb as [Hb|Hb]; rewrite ?Ha, ?Hb; cbn [negb];
+        repeat match goal with
+               | |- context [negb (cs_for_block ?x)] => destruct (negb (cs_for_block x))
+               end; apply IH. }
+  apply G; reflexivity.
+Qed.
+
+End Main.
+
+(* ------------------------------------------------------------------ symbolic instance *)
+
+Lemma canon_bid_inj : forall a b, a <> 0 -> canon_bid a = canon_bid b -> a = b.
+Proof.
+  intros a b Ha. unfold canon_bid. destruct (Z.eqb_spec a 0); [contradiction|].
+  destruct (Z.eqb_spec b 0); [discriminate|]. congruence.
+Qed.
+
+(* the record of signed fields determines chain, height, round, block (if not nil), time *)
+Lemma sign_msg_inj : forall ch h r b ts ch' h' r' b' ts', b <> 0 ->
+  sign_msg ch h r b ts = sign_msg ch' h' r' b' ts' ->
+  ch = ch' /\ h = h' /\ r = r' /\ b = b' /\ ts = ts'.
+Proof.
+  intros ch h r b ts ch' h' r' b' ts' Hb E. unfold sign_msg in E.
+  injection E as E1 E2 E3 E4 E5. apply (canon_bid_inj b b' Hb) in E4. repeat split; assumption.
+Qed.
+
+(* with symbolic signatures: a slot counts only if its signature was made by the validator's key
+   over exactly this chain, height, round, block and the slot's timestamp *)
+Lemma ideal_good_slot_binds : forall chain h r bid v (cs : commitsig isig),
+  good_slot isig ideal_verify chain h r bid v cs = true ->
+  cs_flag cs = block_id_flag_commit /\
+  cs_sig cs = Signed (v_key v) (sign_msg chain h r bid (cs_ts cs)).
+Proof.
+  intros chain h r bid v cs H. unfold good_slot in H. apply andb_true_iff in H as [H1 H2].
+  split; [unfold cs_for_block in H1; lia | apply ideal_verify_binds; assumption].
+Qed.
+
+Lemma Signed_inj : forall k m k' m', Signed k m = Signed k' m' -> k = k' /\ m = m'.
+Proof. intros k m k' m' E. injection E as -> ->. split; reflexivity. Qed.
+
+Lemma ideal_other_message_not_counted : forall chain h r bid v (cs : commitsig isig) k ch' h' r' bid' ts',
+  bid <> 0 -> cs_sig cs = Signed k (sign_msg ch' h' r' bid' ts') ->
+  (k <> v_key v \/ ch' <> chain \/ h' <> h \/ r' <> r \/ bid' <> bid \/ ts' <> cs_ts cs) ->
+  good_slot isig ideal_verify chain h r bid v cs = false.
+Proof.
+  intros chain h r bid v cs k ch' h' r' bid' ts' Hb Hs Hne.
+  destruct (good_slot isig ideal_verify chain h r bid v cs) eqn:E; [|reflexivity]. exfalso.
+  apply ideal_good_slot_binds in E as [_ E]. rewrite Hs in E. apply Signed_inj in E as [Ek Em].
+  symmetry in Em. apply sign_msg_inj in Em; [|assumption].
+  destruct Em as [? [? [? [? ?]]]]. intuition congruence.
+Qed.
+
+(* ------------------------------------------------------------------ commit-level forms *)
+
+Lemma forall2_same_length : forall (A B : Type) (R : A -> B -> Prop) l l',
+  Forall2 R l l' -> length l = length l'.
+Proof. induction 1; cbn [length]; congruence. Qed.
+
+Lemma verify_commit_light_ignores_unflagged : forall sig sv vs chain bid h (c : commit sig) s',
+  Forall2 (same_or_unflagged sig) (c_sigs c) s' ->
+  verify_commit_light sv vs chain bid h (with_sigs sig c s') = verify_commit_light sv vs chain bid h c.
+Proof.
+  intros sig sv vs chain bid h c s' H. destruct c as [h0 r0 b0 s0]. cbn [c_sigs] in H.
+  unfold verify_commit_light, verify_commit_light_w, with_sigs. cbn [c_sigs c_height c_bid c_round].
+  rewrite <- (forall2_same_length _ _ _ _ _ H).
+  destruct (negb (Nat.eqb (length vs) (length s0))); [reflexivity|].
+  destruct (negb (h =? h0)); [reflexivity|]. destruct (negb (bid =? b0)); [reflexivity|].
+  destruct (total_voting_power vs) as [total|]; [|reflexivity].
+  symmetry.
+  exact (vl_loop_unflagged sig sv wrap64 chain (Build_commit sig h0 r0 b0 s0) _ s0 s' H vs 0 0).
+Qed.
+
+Lemma verify_commit_light_trusting_ignores_skipped : forall sig sv vs chain (c : commit sig) num den s',
+  Forall2 (same_or_skipped sig vs) (c_sigs c) s' ->
+  verify_commit_light_trusting sv vs chain (with_sigs sig c s') num den =
+  verify_commit_light_trusting sv vs chain c num den.
+Proof.
+  intros sig sv vs chain c num den s' H. destruct c as [h0 r0 b0 s0]. cbn [c_sigs] in H.
+  unfold verify_commit_light_trusting, verify_commit_light_trusting_w, with_sigs.
+  cbn [c_sigs c_height c_bid c_round].
+  destruct (den =? 0); [reflexivity|].
+  destruct (total_voting_power vs) as [total|]; [|reflexivity].
+  destruct (safe_mul wrap64 total (wrap64 num)) as [prod ovf]. destruct ovf; [reflexivity|].
+  symmetry.
+  exact (vt_loop_skipped sig sv wrap64 chain (Build_commit sig h0 r0 b0 s0) _ vs s0 s' H 0 0 []).
+Qed.
+
+(* ------------------------------------------------------------------ no panic *)
+
+Section NoPanic.
+Variable sig : Type.
+Variable sv : key -> signmsg -> sig -> bool.
+
+Lemma known_flag_sign_bytes : forall chain (c : commit sig) cs,
+  cs_flag_known cs = true -> vote_sign_bytes chain c cs <> None.
+Proof.
+  intros chain c cs H. unfold vote_sign_bytes, cs_block_id. unfold cs_flag_known in H.
+  destruct (cs_flag cs =? block_id_flag_absent); [discriminate|].
+  destruct (cs_flag cs =? block_id_flag_commit); [discriminate|].
+  destruct (cs_flag cs =? block_id_flag_nil); [discriminate|]. discriminate H.
+Qed.
+
+Lemma vc_loop_no_panic : forall w chain (c : commit sig) needed sigs vs idx t,
+  length vs = length sigs -> forallb cs_flag_known sigs = true ->
+  vc_loop sig sv w chain c needed vs sigs idx t <> R_panic.
+Proof.
+  intros w chain c needed. induction sigs as [|cs sigs IH]; intros vs idx t Hlen Hk;
+    destruct vs as [|v vs]; try discriminate Hlen.
+  - cbn [vc_loop]. destruct (t <=? needed); discriminate.
+  - rewrite vc_loop_cons. injection Hlen as Hlen. cbn [forallb] in Hk.
+    apply andb_true_iff in Hk as [Hk1 Hk2].
+    destruct (cs_absent cs); [apply IH; assumption|].
+    pose proof (known_flag_sign_bytes chain c cs Hk1) as Hm.
+    destruct (vote_sign_bytes chain c cs) as [m|]; [|contradiction].
+    destruct (negb (sv (v_key v) m (cs_sig cs))); [discriminate | apply IH; assumption].
+Qed.
+
+Lemma vl_loop_no_panic : forall w chain (c : commit sig) needed sigs vs idx t,
+  length vs = length sigs -> vl_loop sig sv w chain c needed vs sigs idx t <> R_panic.
+Proof.
+  intros w chain c needed. induction sigs as [|cs sigs IH]; intros vs idx t Hlen;
+    destruct vs as [|v vs]; try discriminate Hlen.
+  - discriminate.
+  - rewrite vl_loop_cons. injection Hlen as Hlen.
+    destruct (cs_for_block cs) eqn:Ef; cbn [negb]; [|apply IH; assumption].
+    rewrite (for_block_sign_bytes chain c cs Ef).
+    destruct (negb (sv (v_key v) _ (cs_sig cs))); [discriminate|]. cbv zeta.
+    destruct (w (t + v_power v) >? needed); [discriminate | apply IH; assumption].
+Qed.
+
+Lemma vt_loop_no_panic : forall w chain (c : commit sig) needed vs sigs idx t seen,
+  vt_loop sig sv w chain c needed vs sigs idx t seen <> R_panic.
+Proof.
+  intros w chain c needed vs. induction sigs as [|cs sigs IH]; intros idx t seen; [discriminate|].
+  rewrite vt_loop_cons. destruct (cs_for_block cs) eqn:Ef; cbn [negb]; [|apply IH].
+  destruct (get_by_address vs (cs_addr cs) 0) as [[vi v]|]; [|apply IH].
+  destruct (existsb (Nat.eqb vi) seen); [discriminate|].
+  rewrite (for_block_sign_bytes chain c cs Ef).
+  destruct (negb (sv (v_key v) _ (cs_sig cs))); [discriminate|]. cbv zeta.
+  destruct (w (t + v_power v) >? needed); [discriminate | apply IH].
+Qed.
+
+(* On a well-formed set: the early-exit and trusting variants never panic, whatever the commit;
+   the full variant does not panic when every slot's flag is one of the three defined values
+   (CommitSig.ValidateBasic, run by Commit.ValidateBasic / CommitFromProto). *)
+Lemma no_panic : forall vs chain bid h (c : commit sig) num den, wf_valset vs ->
+  verify_commit_light sv vs chain bid h c <> R_panic /\
+  verify_commit_light_trusting sv vs chain c num den <> R_panic /\
+  (forallb cs_flag_known (c_sigs c) = true -> verify_commit sv vs chain bid h c <> R_panic).
+Proof.
+  intros vs chain bid h c num den Hwf. split; [|split].
+  - unfold verify_commit_light, verify_commit_light_w.
+    destruct (Nat.eqb_spec (length vs) (length (c_sigs c))); cbn [negb]; [|discriminate].
+    destruct (negb (h =? c_height c)); [discriminate|].
+    destruct (negb (bid =? c_bid c)); [discriminate|].
+    rewrite (total_voting_power_wf vs Hwf). apply vl_loop_no_panic; assumption.
+  - unfold verify_commit_light_trusting, verify_commit_light_trusting_w.
+    destruct (den =? 0); [discriminate|]. rewrite (total_voting_power_wf vs Hwf).
+    destruct (safe_mul wrap64 (sum_power vs) (wrap64 num)) as [p o]. destruct o; [discriminate|].
+    apply vt_loop_no_panic.
+  - intro Hk. unfold verify_commit, verify_commit_w.
+    destruct (Nat.eqb_spec (length vs) (length (c_sigs c))); cbn [negb]; [|discriminate].
+    destruct (negb (h =? c_height c)); [discriminate|].
+    destruct (negb (bid =? c_bid c)); [discriminate|].
+    rewrite (total_voting_power_wf vs Hwf). apply vc_loop_no_panic; assumption.
+Qed.
+
+End NoPanic.
+
+(* ------------------------------------------------------------------ distinct members, distinct addresses *)
+
+Lemma nth_error_nth_map : forall (vs : list validator) i v,
+  nth_error vs i = Some v -> nth i (map v_addr vs) 0 = v_addr v /\ (i < length (map v_addr vs))%nat.
+Proof.
+  induction vs as [|x r IH]; intros [|i] v H; cbn in *; try discriminate.
+  - injection H as ->. split; [reflexivity | lia].
+  - apply IH in H as [H1 H2]. split; [assumption | lia].
+Qed.
+
+(* in a set without duplicate addresses, distinct member indices are distinct addresses: the
+   members found by C07_trusting_sound are different validators also in this sense *)
+Lemma members_distinct_addresses : forall (vs : list validator) (S : list nat),
+  NoDup (map v_addr vs) -> NoDup S -> (forall i, In i S -> nth_error vs i <> None) ->
+  NoDup (map (fun i => nth i (map v_addr vs) 0) S).
+Proof.
+  intros vs S Hvs HS. induction HS as [|a S' Ha HS' IH]; intros Hin; cbn [map]; [constructor|].
+  constructor.
+  - intro Hc. apply in_map_iff in Hc as [j [Ej Hj]].
+    assert (Ha' : nth_error vs a <> None) by (apply Hin; left; reflexivity).
+    assert (Hj' : nth_error vs j <> None) by (apply Hin; right; assumption).
+    apply nth_error_Some in Ha', Hj'.
+    assert (a = j); [|subst; contradiction].
+    symmetry. apply (proj1 (NoDup_nth (map v_addr vs) 0) Hvs); rewrite ?map_length; assumption.
+  - apply IH. intros i Hi. apply Hin. right. assumption.
+Qed.
